@@ -495,7 +495,7 @@ impl Property for C07 {
         Isolation::Child
     }
     fn cases(&self, tier: Tier) -> u32 {
-        tier.pick(8_000, 200_000)
+        tier.pick(30_000, 400_000)
     }
     fn strategy(&self, tier: Tier) -> BoxedStrategy<Case> {
         let t = || 0u8..NT as u8;
